@@ -1,7 +1,13 @@
 /* C01 header, bounded exactness + read-back (B) on the REAL code: _dbus_header_have_message_untrusted, then
- * _dbus_header_load (untrusted mode: real _dbus_validate_body_with_reason on "yyyyuua(yv)", real values reader,
- * real load_and_validate_field with the real name validators, real check_mandatory_fields) on every byte string of
- * at most VERIF_N bytes (optionally restricted to a skeleton by -DVERIF_HDR_ASSUME=...):
+ * _dbus_header_load (untrusted mode: real values reader, real load_and_validate_field with the real name
+ * validators, real check_mandatory_fields, real _dbus_string_validate_nul / _dbus_string_copy_len) on every byte
+ * string of at most VERIF_N bytes (optionally with some bytes fixed by -DVERIF_HDR_ASSUME=...).
+ * The ONE callee that is not real here is _dbus_validate_body_with_reason: it is bound to a contract stub that
+ * answers as the reference decoder does for the marshalling of "yyyyuua(yv)" (measured: the real validator walks the
+ * variant signatures through _DBUS_ALIGN_ADDRESS'ed *pointers*, which symbolic execution cannot resolve: no result
+ * in 20 min even for one "u" field; the values reader works on integer positions and is fine).  So the
+ * marshalling well-formedness of the header is ASSUMED equal to the reference here (its exactness is what the
+ * C01.body.* catalogue checks for variant-free signatures); everything else below is the real code:
  *    accepted  <=>  hdr_ref_valid (independent decoder of spec/header_ref.h)
  *    accepted   =>  every accessor (_dbus_header_get_field_raw/_basic, _get_serial, _get_message_type, _get_flag)
  *                   returns what the independent decoding of the bytes gives; also after the position cache was
@@ -23,6 +29,16 @@ unsigned char in_buf[VERIF_N + 16] __attribute__ ((aligned (8)));
 int in_len;
 static unsigned char hdr_store[VERIF_N + 16] __attribute__ ((aligned (8)));
 unsigned char nondet_uchar (void); int nondet_int (void);
+static struct hdr_ref_fields RF;    /* the reference decoding of the fields array, computed once */
+/* contract of the body validator for the header signature = marshalling well-formedness per the reference decoder */
+DBusValidity verif_stub_validate_body (const DBusString *sig, int sig_start, int byte_order, int *bytes_remaining, const DBusString *value_str, int value_pos, int len)
+{ int wf;
+  __CPROVER_assert (sig_start == 0 && value_pos == 0 && len == in_len && REAL(value_str)->str == in_buf && bytes_remaining != NULL && byte_order == in_buf[0], "precondition of _dbus_validate_body_with_reason: the whole input as a block of the header signature");
+  __CPROVER_assert (REAL(sig)->len == 11 && REAL(sig)->str[0] == 'y' && REAL(sig)->str[6] == 'a' && REAL(sig)->str[7] == '(' && REAL(sig)->str[8] == 'y' && REAL(sig)->str[9] == 'v' && REAL(sig)->str[10] == ')', "precondition of _dbus_validate_body_with_reason: signature yyyyuua(yv)");
+  wf = RF.wf;
+  __CPROVER_assume (wf >= 0);      /* bound of the reference decoder: no variant nested inside a field value */
+  if (!wf) { int v = nondet_int (); __CPROVER_assume (v != DBUS_VALID); return v; }
+  *bytes_remaining = in_len - (16 + (int) hdr_ref_fields_len (in_buf)); return DBUS_VALID; }
 #ifndef VERIF_REVALIDATE
 #define VERIF_REVALIDATE 0
 #endif
@@ -35,6 +51,7 @@ void harness (void)
 #ifdef VERIF_HDR_ASSUME
   VERIF_HDR_ASSUME
 #endif
+  hdr_ref_walk (in_buf, in_len, &RF);
   str.str = in_buf; str.len = in_len; str.allocated = VERIF_N + 16; str.constant = 1; str.locked = 1; str.valid = 1; str.align_offset = 0;
   have = _dbus_header_have_message_untrusted (DBUS_MAXIMUM_MESSAGE_LENGTH, &v, &bo, &fal, &hl, &bl, (DBusString *) &str, 0, in_len);
   if (!have) { REACH("frame-incomplete-or-insane"); return; }
@@ -43,7 +60,7 @@ void harness (void)
   H.padding = 0;
   for (i = 0; i <= DBUS_HEADER_FIELD_LAST; i++) H.fields[i].value_pos = _DBUS_HEADER_FIELD_VALUE_UNKNOWN;
   ok = _dbus_header_load (&H, DBUS_VALIDATION_MODE_DATA_IS_UNTRUSTED, &v, bo, fal, hl, bl, (DBusString *) &str);
-  want = hdr_ref_valid (in_buf, in_len, &rhl);
+  want = hdr_ref_valid_walked (in_buf, in_len, &rhl, &RF);
   __CPROVER_assume (want >= 0);   /* bound of the reference: no variant nested in a field value (stated in `bounds`) */
   __CPROVER_assert ((ok != 0) == (want != 0), "header loader agrees with the reference decoder");
   __CPROVER_assert (ok ? (v == DBUS_VALID && hd->len == rhl && hl == rhl) : (v != DBUS_VALID && hd->len == 0), "header loader: TRUE => VALID and header_len bytes held; FALSE => not VALID and header emptied");
@@ -58,8 +75,7 @@ void harness (void)
       __CPROVER_assert ((int) H.padding == rhl - (16 + (int) hdr_ref_fields_len (in_buf)), "read-back: padding");
       for (c = 1; c <= DBUS_HEADER_FIELD_LAST; c++)
         {
-          int v_at, type, count, pos = -1; const DBusString *s = NULL; dbus_bool_t got;
-          hdr_ref_find_field (in_buf, in_len, c, &v_at, &type, &count);
+          int v_at = RF.val_at[c], type = RF.type[c], count = RF.count[c], pos = -1; const DBusString *s = NULL; dbus_bool_t got;
           got = _dbus_header_get_field_raw (&H, c, &s, &pos);
           __CPROVER_assert ((got != 0) == (count > 0), "read-back: field present iff the reference decoding finds it");
           if (got)
